@@ -249,7 +249,8 @@ fn closure<C: OrdColl>(cfg: &Cfg, rep: &mut Report, u: i32, hint: usize, set_ind
     // fault mode (C18): the probe sequences are not judged here; they are handed to the fault
     // enumerator together with the path to the state
     let fault_mode = cfg.flag("fault");
-    let mon = if fault_mode { OMon::default() } else { mon };
+    let twin_mode = cfg.flag("twin");
+    let mon = if fault_mode || twin_mode { OMon::default() } else { mon };
     let uni = (0, 2 * u);
     let keys: Vec<i32> = (0..u).map(|i| 2 * i + 1).collect();
     let base_live = cb::ledger_live();
@@ -283,6 +284,43 @@ fn closure<C: OrdColl>(cfg: &Cfg, rep: &mut Report, u: i32, hint: usize, set_ind
                         return true;
                     }
                 }
+                if twin_mode && emit.is_none() && matches!(C::NAME, "MapTree" | "SetTree" | "MapList" | "SetList") {
+                    // C12: clear this state, then drive it and a fresh twin with the same suffixes
+                    let pre: Vec<String> = path_of(&nodes, idx).iter().map(|o| o.line()).collect();
+                    let ctor = format!("hint={} uni={}..{} twin_hint={}", hint, uni.0, uni.1, [0usize, 1, 8, 9, 300][idx as usize % 5]);
+                    for variant in 0..3 {
+                        let mut suf: Vec<OOp> = Vec::new();
+                        let order: Vec<i32> = match variant {
+                            0 => keys.clone(),
+                            1 => keys.iter().rev().copied().collect(),
+                            _ => keys.iter().step_by(2).chain(keys.iter().skip(1).step_by(2)).copied().collect(),
+                        };
+                        suf.push(OOp::Empty);
+                        suf.push(OOp::Sweep);
+                        for (n, &k) in order.iter().enumerate() {
+                            suf.push(OOp::Ins { k });
+                            suf.push(OOp::Fil { k: k + 1 });
+                            if n == 2 {
+                                suf.push(OOp::Hold);
+                            }
+                        }
+                        suf.push(OOp::Chk);
+                        suf.push(OOp::WalkF);
+                        suf.push(OOp::WalkB);
+                        for &k in order.iter().take(3) {
+                            suf.push(OOp::Aft { k });
+                            suf.push(OOp::Bef { k });
+                            suf.push(OOp::Del { k });
+                            suf.push(OOp::Sweep);
+                        }
+                        suf.push(OOp::DelH { k: 2 * u });
+                        suf.push(OOp::Sweep);
+                        suf.push(OOp::Clear);
+                        let suf_lines: Vec<String> = suf.iter().map(|o| o.line()).collect();
+                        crate::misc_suites::twin_run(C::NAME, &ctor, &pre, &suf_lines, rep, hist);
+                        rep.histories += 1;
+                    }
+                }
                 if fault_mode && emit.is_none() {
                     // C18: every sequence applied at this state, with every callback of it panicking once
                     let path = path_of(&nodes, idx);
@@ -294,7 +332,7 @@ fn closure<C: OrdColl>(cfg: &Cfg, rep: &mut Report, u: i32, hint: usize, set_ind
                     }
                 }
                 for (si, sq) in seqs.iter().enumerate() {
-                    if si < first_transition && (emit.is_some() || fault_mode) {
+                    if si < first_transition && (emit.is_some() || fault_mode || twin_mode) {
                         continue;
                     }
                     ctx::set(hist, si as u64);
